@@ -222,12 +222,21 @@ pub fn gen_contract_surface(tape: Vec<u32>) -> SurfaceCase {
                     "migrate" => "MigrateCtx",
                     _ => "ReplyCtx",
                 };
-                match kind {
-                    "query" if t.chance(30) => o.only_written("#[sv::msg(query, resp = QueryResp)]\n"),
-                    "reply" => o.only_written("#[sv::msg(reply, handlers = [on_done], reply_on = success)]\n"),
-                    k => o.only_written(&format!("#[sv::msg({k})]\n")),
+                let msg_attr = match kind {
+                    "query" if t.chance(30) => "#[sv::msg(query, resp = QueryResp)]\n".to_string(),
+                    "reply" => "#[sv::msg(reply, handlers = [on_done], reply_on = success)]\n".to_string(),
+                    k => format!("#[sv::msg({k})]\n"),
+                };
+                // framework attributes in either order, foreign ones in between
+                let fwd = matches!(kind, "exec" | "query" | "sudo") && t.chance(35);
+                let fwd_first = fwd && t.chance(50);
+                if fwd_first {
+                    o.only_written("#[sv::attr(serde(rename = \"renamed\"))]\n");
+                    tags.push("sv-attr-before-sv-msg".into());
+                    foreign_attrs(t, FOREIGN_FN_ATTRS, &mut o, &mut tags, 1);
                 }
-                if matches!(kind, "exec" | "query" | "sudo") && t.chance(25) {
+                o.only_written(&msg_attr);
+                if fwd && !fwd_first {
                     o.only_written("#[sv::attr(serde(rename = \"renamed\"))]\n");
                 }
                 foreign_attrs(t, FOREIGN_FN_ATTRS, &mut o, &mut tags, 1);
@@ -314,8 +323,15 @@ pub fn gen_interface_surface(tape: Vec<u32>) -> SurfaceCase {
                     "query" => "QueryCtx",
                     _ => "SudoCtx",
                 };
+                let fwd = t.chance(35);
+                let fwd_first = fwd && t.chance(50);
+                if fwd_first {
+                    o.only_written("#[sv::attr(serde(rename = \"renamed\"))]\n");
+                    tags.push("sv-attr-before-sv-msg".into());
+                    foreign_attrs(t, FOREIGN_FN_ATTRS, &mut o, &mut tags, 1);
+                }
                 o.only_written(&format!("#[sv::msg({kind})]\n"));
-                if t.chance(25) {
+                if fwd && !fwd_first {
                     o.only_written("#[sv::attr(serde(rename = \"renamed\"))]\n");
                 }
                 foreign_attrs(t, FOREIGN_FN_ATTRS, &mut o, &mut tags, 1);
